@@ -231,6 +231,8 @@ def run(ctx):
     # push constant used by the low helper (all nesting contexts are C03's)
     from harness import c03 as C03
     C03.sequences(ctx, 2, 2, seen, low_use='pc')
+    # a call in every nesting context (if / switch / loop body / continuing / block / for ...) whose callee chain may reach the push constant
+    C03.contexts(ctx, 2, 2, seen, [(cx, None) for cx in C03.CONTEXTS], full=False)
     ctx.extra['violations_by_rule'] = seen
 
 
